@@ -14,7 +14,7 @@ from vf import common
 from vf.jobs import JobSpec, all_dags
 
 PROP = "C16"
-VARIANTS = ("plain", "multiout", "multiedge", "reversed", "dupparam")
+VARIANTS = ("plain", "multiout", "multiedge", "reversed", "dupparam", "nooutput")
 
 
 def make_spec(n: int, es: list, variant: str) -> JobSpec:
@@ -24,7 +24,13 @@ def make_spec(n: int, es: list, variant: str) -> JobSpec:
     if variant == "reversed":
         order = order[::-1]
     for i in order:
-        tasks[f"t{i}"] = {"outs": ["a", "b"] if variant in ("multiout", "multiedge") else ["0"], "ps": {}, "kw": {}}
+        if variant == "nooutput":
+            # the library's placeholder name for "this task produces nothing worth keeping": alone on tasks without
+            # consumers, next to the real output elsewhere
+            outs = ["0", "__NO_OUTPUT__"] if any(a == i for a, _ in es) else ["__NO_OUTPUT__"]
+        else:
+            outs = ["a", "b"] if variant in ("multiout", "multiedge") else ["0"]
+        tasks[f"t{i}"] = {"outs": outs, "ps": {}, "kw": {}}
     pos = {j: 0 for j in range(n)}
     for k, (i, j) in enumerate(es):
         if variant == "dupparam":  # one dataset feeds two parameters of the same consumer
@@ -36,7 +42,7 @@ def make_spec(n: int, es: list, variant: str) -> JobSpec:
             edges.append((f"t{i}", "b", f"t{j}", pos[j] + 1))
             pos[j] += 2
         else:
-            o = "0" if variant in ("plain", "reversed") else ("a" if k % 2 == 0 else "b")
+            o = "0" if variant in ("plain", "reversed", "nooutput") else ("a" if k % 2 == 0 else "b")
             edges.append((f"t{i}", o, f"t{j}", pos[j]))
             pos[j] += 1
     return JobSpec(f"n{n}:{es}:{variant}", tasks, edges, [])
